@@ -436,8 +436,9 @@ def compare_dump(m, d, resolve_names=True, ext=None):
                     bad.append("rr.rhs[%d] mismatch" % i)
                 if R["sense"][i] != r.sense:
                     bad.append("rr.sense[%d] %r != %r" % (i, R["sense"][i], r.sense))
-                if r.sense == "R" and parse(R["range"][i]) != r.range:
-                    bad.append("range[%d] %s != model %s" % (i, R["range"][i], r.range))
+                # a row that is not (or no longer) a range row reports range 0
+                if parse(R["range"][i]) != (r.range if r.sense == "R" else 0):
+                    bad.append("range[%d] %s != model %s" % (i, R["range"][i], r.range if r.sense == "R" else 0))
                 if R["names"][i] != rn[i]:
                     bad.append("rr.names[%d] %r != rownames %r" % (i, R["names"][i], rn[i]))
     cc = _sparse_rows(d, "cols")
@@ -526,7 +527,7 @@ def compare_ext(m, d):
             R = d[key]
             if got != want or parse(R["rhs"][t]) != r.rhs or R["sense"][t] != r.sense or R["names"][t] != rn[i]:
                 bad.append("%s[%d] mismatch" % (key, t))
-            if ranged and r.sense == "R" and parse(R["range"][t]) != r.range:
+            if ranged and parse(R["range"][t]) != (r.range if r.sense == "R" else 0):
                 bad.append("%s[%d] range mismatch" % (key, t))
     if d.get("intcount_rc") == 0 and d["intcount"] != sum(1 for c in m.cols if c.isint):
         bad.append("intcount %d != model" % d["intcount"])
